@@ -195,7 +195,7 @@ class Tracer(object):
                     # closure parameter: the element of the iterator the closure is mapped over, when that is visible
                     cl = st['place']['l'] if not st['place']['p'] else None
                     if cl is not None:
-                        it = self._applied_to(body, bb, cl)
+                        it = self.eng.applied_to(body, bb, cl)
                         if it is not None:
                             from .terms import mk_elem
                             cenv[('param', cb.key, 2)] = self._sub(mk_elem(self.eng, it), env, site)
